@@ -686,6 +686,16 @@ fn exec_on(s: &mut Sess, w: &[&str], op: &str, out: &mut Out) -> String {
             }
             deliver(s, op, out)
         }
+        // the BYTES of the payload the last `pub` handed to the client (prost `encode_to_vec`), against
+        // `encWC (metricsToPayload clock pms)` of Model/HostCmdWire.lean: ties the record -> wire-tree map of
+        // the C15HW theorems byte for byte (emitted right behind the `pub` line it repeats)
+        "wbytes" => {
+            use prost::Message as _;
+            match (&s.last, w.get(2).and_then(|c| c.parse::<u64>().ok())) {
+                (Some(sent), Some(clock)) if sent.clock == clock => format!("ok {}", hex(&sent.payload.encode_to_vec())),
+                _ => "bad-op".into(),
+            }
+        }
         _ => "bad-op".into(),
     }
 }
@@ -1002,6 +1012,18 @@ fn run_case(out: &mut Out, ops: &[String], stat: &str) {
         out.count(&format!("op:{}", w.get(1).unwrap_or(&"?")));
         if w.get(1) == Some(&"deliver") && a != "unsent" {
             nontrivial = true;
+        }
+        if w.get(1) == Some(&"pub") && (a.starts_with("publish") || a.starts_with("try_publish")) {
+            let from = match w.get(3) {
+                Some(&"n") => 6,
+                _ => 7,
+            };
+            if w.len() > from {
+                let wb = format!("hcmd wbytes {}", w[from..].join(" "));
+                let b = exec(&wb, out);
+                out.line(&wb, &b);
+                out.count("op:wbytes");
+            }
         }
     }
     if nontrivial {
